@@ -18,5 +18,6 @@ func checkC01(p *Prog, r *Report) {
 		return false
 	})
 	wireAolStore(p, r, "C01")
+	checkInitGenesisCallers(p, r, "C01", "x/aol")
 	r.Floor("in-loop-decode-targets(x/aol)", checkLoopFreshDecode(p, r, "C01", func(fn *ssa.Function) bool { return InPkgs(fn, "x/aol") }), 4)
 }
